@@ -49,8 +49,12 @@ def conc(cls, k):
         if cls == "dt_tz":
             ts = ts.tz_localize("UTC").tz_convert("Europe/Paris")
         return ts.as_unit(unit)
-    if cls == "td_ns":
+    if cls in ("td_ns", "td_us"):
         return pd.Timedelta(microseconds=[-5_000_000, -3, 0, 7, 1000, 86_400_000_000, 10 ** 14][k])
+    if cls == "td_ms":       # durations of coarser resolution: whole milliseconds / seconds (all representable in microseconds)
+        return pd.Timedelta(milliseconds=[-5_000, -3, 0, 7, 1000, 86_400_000, 10 ** 11][k])
+    if cls == "td_s":
+        return pd.Timedelta(seconds=[-5, -3, 0, 7, 1000, 86_400, 10 ** 8][k])
     if cls == "cat_str":
         return ["lab_a", "lab_b", "lab_c", "lab_d", "lab_e", "lab_f", "lab_g"][k]
     if cls == "cat_int":
@@ -85,8 +89,8 @@ def series(cls, cells, name="x"):
             return pd.Series(pd.DatetimeIndex([pd.NaT if m else v.tz_convert("UTC") for v, m in zip(vals, miss)],
                                               dtype="datetime64[ns, UTC]").tz_convert("Europe/Paris"), name=name)
         return pd.Series([pd.NaT if m else v for v, m in zip(vals, miss)], dtype="datetime64[%s]" % unit, name=name)
-    if cls == "td_ns":
-        return pd.Series([pd.NaT if m else v for v, m in zip(vals, miss)], dtype="timedelta64[ns]", name=name)
+    if cls.startswith("td_"):
+        return pd.Series([pd.NaT if m else v for v, m in zip(vals, miss)], dtype="timedelta64[%s]" % cls[3:], name=name)
     if cls in ("cat_str", "cat_int", "cat_str_ord", "cat_int_ord"):
         # category order deliberately differs from the order of the labels, plus one unused category;
         # the _ord variants declare that order as THE order of the categorical (statistics still go by label value)
@@ -118,7 +122,7 @@ def cell_equal(cls, got, want_k):
         if cls == "dt_tz":
             return g.tzinfo is not None and g == want
         return g.tzinfo is None and g == want
-    if cls == "td_ns":
+    if cls.startswith("td_"):
         return pd.Timedelta(got) == want
     if cls == "obj_bytes":
         return bytes(got) == want
@@ -171,7 +175,7 @@ def dtype_ok(cls, dtype):
         return s.startswith("datetime64[ns, ") and "Paris" in s
     if cls.startswith("dt_"):
         return s == "datetime64[%s]" % {"dt_ns": "ns", "dt_us": "us", "dt_ms": "ms", "dt_s": "s"}[cls]
-    if cls == "td_ns":
+    if cls.startswith("td_"):
         return s.startswith("timedelta64")
     if cls in ("cat_str", "cat_int"):
         return s == "category"
@@ -244,6 +248,6 @@ def expected_logical(cls, k):
         return ("bytes", v)
     if cls.startswith("dt_"):
         return ("ns", pd.Timestamp(v).value if cls != "dt_tz" else v.tz_convert("UTC").tz_localize(None).value)
-    if cls == "td_ns":
-        return ("td_ns", v.value)
+    if cls.startswith("td_"):
+        return ("td_ns", int(v.value))        # Timedelta.value: always nanoseconds
     return ("int", int(v))
